@@ -600,7 +600,10 @@ class FileCache(CacheMixin):
         """Write a file via a temporary file and a rename,
         so that a crash leaves either the previous content or the complete new one."""
         # a temporary name of its own for every writer: concurrent writers of one entry must not share it
-        tmp = f"{path}.{os.getpid()}.{threading.get_ident()}.tmp"
+        # (named after the writer only, not after the entry: the name stays short whatever the entry is called)
+        tmp = os.path.join(
+            os.path.dirname(path), f".{os.getpid()}.{threading.get_ident()}.tmp"
+        )
         with open(tmp, "wb") as f:
             f.write(b)
         os.replace(tmp, path)
